@@ -241,6 +241,11 @@ fn known_print_findings(i: u64, st: &mut Stats) -> CaseResult {
     }
 }
 
+/// entry for the coverage-guided fuzz target (the bytes are the choice tape)
+pub fn fuzz_entry(tape: &[u32], st: &mut Stats) -> CaseResult {
+    flat_text_identity(tape, st)
+}
+
 pub fn def() -> PropDef {
     PropDef {
         id: "C12",
@@ -271,6 +276,7 @@ pub fn def() -> PropDef {
                 rule: "listed inputs of known findings F11 (operator names concatenated: `1 | ||(v)`, `{a} = =({b})`) and F12 (derivative of `y`, deep `x*0`)",
                 kind: Kind::Indexed { n: n_known, f: known_print_findings, exhaustive: false },
             },
+            crate::fuzzdrv::differential_subcheck(),
         ],
     }
 }
